@@ -266,6 +266,9 @@ class BaseWorkflow(object, metaclass=abc.ABCMeta):
         #     for j in j_list
         # ]
 
+        for task in self.task_list:
+            task.parent_workflow = self
+
         self.critical_path_length = json_data["critical_path_length"]
 
     def extract_none_task_list(self, target_time_list):
